@@ -1,6 +1,8 @@
 package drv
 
 import (
+	"net/http"
+	"net/url"
 	"encoding/base64"
 	"fmt"
 	"math/rand"
@@ -310,6 +312,32 @@ func (i *Inst) RunHostile(s *HsScript, tw *TraceWriter, rng *rand.Rand) error {
 			h, err = b.Get(i.BaseURL() + "/connect?host=" + strings.Repeat("h", 60000))
 		case "metrics":
 			h, err = b.Get(i.BaseURL() + "/metrics")
+		case "anonymous-after-login", "stale-cookie-after-login":
+			// somebody logs in and uses the session; then requests arrive with the session cookie of a browser that never
+			// finished a login (or with one that a previous gateway process issued)
+			if i.IdP == nil {
+				h, err = b.Get(i.BaseURL() + "/connect")
+				break
+			}
+			a := i.NewBrowser("", "")
+			a.LoginID = i.IdP.Register(loginFor("ok", "user1"))
+			if hops, e := a.Connect("", 6); e != nil || len(hops) == 0 {
+				return fmt.Errorf("login failed: %v", e)
+			}
+			a.LoginID = ""
+			if s.Cls == "anonymous-after-login" {
+				b.Get(i.BaseURL() + "/connect") // leaves an anonymous session cookie in b's jar
+			} else {
+				u, _ := url.Parse(i.BaseURL())
+				b.C.Jar.SetCookies(u, []*http.Cookie{{Name: "RDPGWSESSION", Value: "MTc5MDUxMjg3MXxEdi1CQkFFQ180SUFBUkFCRUFBQV9nRVRfNElBQVFaemRISnBibWNNQ2dBSWFXUmxiblJwZEhr", Path: "/"}})
+			}
+			for k := 0; k < 4; k++ {
+				a.Get(i.BaseURL() + "/connect")
+				h, err = b.Get(i.BaseURL() + "/connect")
+				if err != nil || h == nil || h.Status <= 0 {
+					break
+				}
+			}
 		default:
 			var body []byte
 			switch s.Cls {
